@@ -461,7 +461,36 @@ def r11(ctx):
                len(nanset), ['%04x' % v for v in sorted(nanset)[:4]], ['%04x' % v for v in sorted(marks)]))
 
 
+def r12(ctx):
+    ctx.rule('C05.R12', 'a 32 bit raw value that is not negative keeps all its bits: in the decoders NumberDataType::readFromRawValue and '
+             'getFloatFromRawValue a conversion of the raw value to a signed 32 bit integer is reached only where the value is '
+             'negative in the type (sign bit set of a signed type) or the type is narrower than 32 bits - passing it through an '
+             'int otherwise turns the upper half of ULG / U4L with a divisor into negative numbers', minimum=4)
+    fb = ctx.fb
+    n = 0
+    for name in ('ebusd::NumberDataType::readFromRawValue', 'ebusd::NumberDataType::getFloatFromRawValue'):
+        fn = fb.fn(name)
+        ctx.touch(fn)
+        vp = fn.params[0]['decl']
+        for x, v in sorted(fn.nodes.items()):
+            if v.get('ck') != 'IntegralCast' or not v.get('sg') or v.get('w') != 32 or v.get('sw') != 32 or v.get('ssg'):
+                continue
+            if fn.nodes[fn.strip(x, casts=True)].get('decl') != vp:
+                continue
+            n += 1
+            atoms = set((a[0], a[1]) for a in fn.atoms(x))
+            full = ('(this.m_bitCount == #32)', True) in atoms
+            neg = ('negative', True) in atoms or any(k.endswith('negative') and p for k, p in atoms)
+            narrow = ('(this.m_bitCount == #32)', False) in atoms
+            ok = neg or narrow
+            ctx.ob('C05.R12', fn, x, ok, 'raw value as signed int in %s' % name.split('::')[-1],
+                   'reached only for a negative value or a type below 32 bits: %s' % ok)
+    if n < 4:
+        raise AnalysisBroken('C05.R12: only %d conversions of the raw value found' % n)
+
+
 def run(ctx):
+    r12(ctx)
     r11(ctx)
     r6(ctx)
     r1(ctx)
